@@ -221,6 +221,7 @@ def writer_fields(ctx, F, em):
     err = None
     fm_terms = set()
     raw_terms = {}
+    last_terms = set()
     try:
         for side in ("White", "Black"):
             for mask in range(16):
@@ -260,6 +261,8 @@ def writer_fields(ctx, F, em):
                     if not all(x_.isdigit() or x_ == "\x00" for x_ in (f[4], f[5])) or len(terms) != n_t:
                         bad["tail"].append((f[4].replace("\x00", "<?>"), f[5].replace("\x00", "<?>")))
                     fm_terms |= set(terms)
+                    if f[5] == "\x00" and terms:
+                        last_terms.add(terms[-1])
     except (hir.Unsupported, ValueError, KeyError, RecursionError) as e:
         err = str(e)
     ok_sum = err is None and n_cases > 0
@@ -308,6 +311,9 @@ def writer_fields(ctx, F, em):
             v0 = hir.sym_int(hir.fold(at_start(x[2][0]), {}))
             if v0 is not None and v0 < 0:
                 neg.append((txt_, v0))
+            # the full-move number (the last field) counts from 1
+            if v0 is not None and v0 < 1 and last_terms and txt_ in last_terms:
+                neg.append((txt_, "full-move number %d for a game without moves" % v0))
     ctx.check("C11.T7", "writer:counters-not-negative-at-the-start", not neg, fn=WRITER, file=fn["file"],
               what="a computed counter field is negative for a game with no recorded move (unsigned arithmetic: a panic in debug builds, "
                    "a 20-digit number otherwise)", found=neg or "ok")
